@@ -46,6 +46,30 @@
 //!    Substring clauses are only evaluated for needles of >= 6 bytes (a 1-byte needle occurs in any
 //!    ciphertext image by chance, it is not an observation); 1-byte values/names still run through
 //!    every other obligation.
+//!  * C14.decision.group_ttl  BLIND sequences (see `run_blind`): a time-limited grant is given to a GROUP
+//!                            (team / org, reached by the requester through MEMBER edges), the TTL has elapsed
+//!                            (`Duration::ZERO`) or not (3600 s), and the member's FIRST vault call afterwards is the
+//!                            checked op, each of rotate, set(overwrite), delete, current_version, list_versions,
+//!                            get_version, grant / grant_with_ttl / delegate to a third party, revoke, get, list --
+//!                            with NO `get` / `list` / `get_permission` / view call of the harness between the
+//!                            grant and that op (the other families read the whole view before every checked op,
+//!                            and every `get_permission` runs the crate's opportunistic expiry sweep).  Predicate:
+//!                            result == spec decision with expired grants dead (C14: "only while it holds an
+//!                            unexpired ... grant ..., directly or from a group it belongs to; ... expiring a grant
+//!                            removes the ability at once"), then the whole view == ghost post-view (on denial:
+//!                            values and every other entity's permission unchanged).
+//!  * C14.revoke.all_edges    BLIND sequences: several grant-type operations on ONE (entity, secret) pair (Read later
+//!                            upgraded to Write, Write then Read, the same level twice, three levels, permanent +
+//!                            live-TTL grant, grant + `delegate`, grants by two different admins), then ONE `revoke`
+//!                            by root / by another admin.  Checked: (a) the revoke itself: whole view == ghost view
+//!                            (the entity and its members have nothing left on that secret; frame: the other admin,
+//!                            the entity's grant on the OTHER secret and all values are unchanged); (b) every op by
+//!                            that entity / by a member of it as the first call after the revoke: denied on the
+//!                            revoked secret ("revoking ... removes the ability at once"), still allowed on the other
+//!                            secret, whole view == ghost view.
+//!    `delegate(parent, child, [secret], level, None)` is treated as a grant-type op: it creates an access edge
+//!    child -> secret of `level`.  Its outcome is only fixed by the text when the parent is root, holds Admin (every
+//!    reading allows) or holds nothing (every reading denies); otherwise the decision is left unspecified.
 //! TTL: only `Duration::ZERO` (expired at the next instant read, `expires_at <= now`, monotonic clock)
 //! and 3600 s (never expires within a run).  No sleeps, no wall-clock boundary.
 use crate::fw::{Report, Rng, Tier};
@@ -124,7 +148,12 @@ enum Op {
     Revoke { by: u8, from: u8, s: u8 },
     /// harness operation: MEMBER edge created through the public graph handle
     Member { from: u8, to: u8 },
+    /// version readers (need Read): kind 0 `current_version`, 1 `list_versions`, 2 `get_version(.., 1)`
+    Ver { by: u8, s: u8, kind: u8 },
+    /// `delegate(by, to, [s], lvl, None)`: grant-type op, `by` is the delegating parent
+    Delegate { by: u8, to: u8, s: u8, lvl: u8 },
 }
+const VER_S: [&str; 3] = ["current_version", "list_versions", "get_version"];
 const LVL_S: [&str; 4] = ["none", "R", "W", "A"];
 const PAT_S: [&str; 4] = ["*", "S0", "S1", ""];
 fn ent_idx(s: &str) -> u8 { ENT_S.iter().position(|e| *e == s).unwrap_or(0) as u8 }
@@ -140,6 +169,8 @@ impl Op {
             Op::Grant { by, to, s, lvl, ttl } => json!(["grant", e(by), e(to), s, LVL_S[*lvl as usize], ttl]),
             Op::Revoke { by, from, s } => json!(["revoke", e(by), e(from), s]),
             Op::Member { from, to } => json!(["member", e(from), e(to)]),
+            Op::Ver { by, s, kind } => if *kind == 2 { json!([VER_S[2], e(by), s, 1]) } else { json!([VER_S[*kind as usize], e(by), s]) },
+            Op::Delegate { by, to, s, lvl } => json!(["delegate", e(by), e(to), s, LVL_S[*lvl as usize]]),
         }
     }
     fn from_json(v: &Value) -> Result<Op, String> {
@@ -157,13 +188,18 @@ impl Op {
                                    ttl: a.get(5).and_then(Value::as_u64) },
             "revoke" => Op::Revoke { by: ent_idx(st(1)), from: ent_idx(st(2)), s: nu(3) },
             "member" => Op::Member { from: ent_idx(st(1)), to: ent_idx(st(2)) },
+            "current_version" => Op::Ver { by: ent_idx(st(1)), s: nu(2), kind: 0 },
+            "list_versions" => Op::Ver { by: ent_idx(st(1)), s: nu(2), kind: 1 },
+            "get_version" => Op::Ver { by: ent_idx(st(1)), s: nu(2), kind: 2 },
+            "delegate" => Op::Delegate { by: ent_idx(st(1)), to: ent_idx(st(2)), s: nu(3), lvl: LVL_S.iter().position(|x| *x == st(4)).unwrap_or(1) as u8 },
             o => return Err(format!("unknown op {o}")),
         })
     }
     /// (requester, secret, required level) of a vault op on one secret
     fn target(&self) -> Option<(u8, u8, u8)> {
         match *self {
-            Op::Get { by, s } => Some((by, s, 1)),
+            Op::Get { by, s } | Op::Ver { by, s, .. } => Some((by, s, 1)),
+            Op::Delegate { by, s, lvl, .. } => Some((by, s, lvl)),
             Op::Set { by, s, .. } | Op::Rotate { by, s, .. } => Some((by, s, 2)),
             Op::Delete { by, s } | Op::Grant { by, s, .. } | Op::Revoke { by, s, .. } => Some((by, s, 3)),
             _ => None,
@@ -231,7 +267,8 @@ impl Model {
             Op::Grant { to, s, lvl, ttl, .. } => self.grants.push(Grant { ent: to, s, lvl, expired: ttl == Some(0) }),
             Op::Revoke { from, s, .. } => self.grants.retain(|g| !(g.ent == from && g.s == s)),
             Op::Member { from, to } => if !self.members.contains(&(from, to)) { self.members.push((from, to)); },
-            Op::Get { .. } | Op::List { .. } => {},
+            Op::Delegate { to, s, lvl, .. } => self.grants.push(Grant { ent: to, s, lvl, expired: false }),
+            Op::Get { .. } | Op::List { .. } | Op::Ver { .. } => {},
         }
     }
     /// Some(true/false) = the contract fixes the outcome, None = unspecified (root revoking on a missing secret)
@@ -244,6 +281,13 @@ impl Model {
             Op::Delete { by, s } | Op::Grant { by, s, .. } => Some(ex(s) && self.acc(by, s) >= 3),
             Op::Revoke { by, s, .. } => if !ex(s) && by == ROOT { None } else { Some(ex(s) && self.acc(by, s) >= 3) },
             Op::List { .. } | Op::Member { .. } => Some(true),
+            Op::Ver { by, s, .. } => Some(ex(s) && self.acc(by, s) >= 1),
+            // fixed by the text only when every reading of "sufficient level" agrees (see the module doc)
+            Op::Delegate { by, to, s, lvl } => {
+                if !ex(s) || by == to { if by == ROOT { None } else { Some(false) } }
+                else if by == ROOT || self.acc(by, s) >= 3 { Some(true) }
+                else if self.acc(by, s) < lvl { Some(false) } else { None }
+            },
         }
     }
     fn listed(&self, by: u8, pat: u8, nm: &[String; 2]) -> Vec<String> {
@@ -344,6 +388,12 @@ impl Sys {
             }),
             Op::Revoke { by, from, s } => Out::Unit(v.revoke(e(by), e(from), n(s))),
             Op::Member { from, to } => { add_member(&v.graph, from, to); Out::Harness },
+            Op::Ver { by, s, kind } => Out::Val(match kind {
+                0 => v.current_version(e(by), n(s)).map(|c| format!("version {c}")),
+                1 => v.list_versions(e(by), n(s)).map(|l| format!("{} version(s)", l.len())),
+                _ => v.get_version(e(by), n(s), 1),
+            }),
+            Op::Delegate { by, to, s, lvl } => Out::Unit(v.delegate(e(by), e(to), &[n(s)], perm_of(lvl), None).map(|_| ())),
         }
     }
     fn view(&self) -> View {
@@ -546,6 +596,153 @@ fn run_seq(cfg: &Cfg, ops: &[Op], check_from: usize, sink: Sink) -> SeqRes {
     res
 }
 
+// ---------------------------------------------------------------- blind sequences (C14.decision.group_ttl, C14.revoke.all_edges)
+const BLIND: [&str; 2] = ["C14.decision.group_ttl", "C14.revoke.all_edges"];
+
+/// Execute `ops` on a fresh system with NO observer call of the harness between the ops: no `view()` /
+/// `get_permission` / `get` / `list` other than the ops of the sequence themselves.  The LAST op is the checked call:
+/// its result is compared with the spec decision (expired grants dead) and only AFTER it the whole view is read and
+/// compared with the ghost post-view.  A prefix op whose outcome differs from the specification ends the run
+/// unreported (the sequence ending at that op is its own case).
+fn run_blind(cfg: &Cfg, ops: &[Op], ob: &str, sink: Sink) -> SeqRes {
+    let sys = build(cfg);
+    let mut m = Model { val: [None, None], grants: vec![], members: vec![], pol: cfg.pol() };
+    let chain = [Op::Member { from: ALICE, to: TEAM }, Op::Member { from: TEAM, to: ORG }];
+    for c in chain.iter().take(cfg.chain as usize) { sys.exec(c); m.apply(c); }
+    let mut res = SeqRes { passed: true, changed: false, checked: 0, nontrivial: 0 };
+    // value of version 1 of each secret (max_versions is 5, the blind scripts write a secret at most 3 times)
+    let mut first_val: [Option<u8>; 2] = [None, None];
+    let mut writes = [0usize; 2];
+    let last = ops.len() - 1;
+    for (i, op) in ops.iter().enumerate() {
+        let pre = m.clone();
+        let allowed = pre.allowed(op);
+        let out = sys.exec(op);
+        let real_ok = out.is_ok();
+        let mut post = pre.clone();
+        // unspecified decision (None): the ghost follows the real outcome
+        if allowed == Some(true) || (allowed.is_none() && real_ok) { post.apply(op); }
+        if real_ok {
+            match *op {
+                Op::Set { s, v, .. } => { if pre.val[s as usize].is_none() { first_val[s as usize] = Some(v); writes[s as usize] = 0; } writes[s as usize] += 1; },
+                Op::Rotate { s, .. } => writes[s as usize] += 1,
+                Op::Delete { s, .. } => { first_val[s as usize] = None; writes[s as usize] = 0; },
+                _ => {},
+            }
+        }
+        if i < last {
+            if allowed.is_some() && allowed != Some(real_ok) { res.passed = false; return res; }
+            m = post;
+            continue;
+        }
+        res.checked = 1;
+        res.changed = post != pre;
+        let by = match *op { Op::List { by, .. } => by, _ => op.target().map_or(ROOT, |t| t.0) };
+        if by != ROOT { res.nontrivial = 1; }
+        let mut why = vec![];
+        match (allowed, real_ok) {
+            (Some(true), false) => why.push("wrongly DENIED (availability direction): spec allows".to_string()),
+            (Some(false), true) => why.push("wrongly ALLOWED (security direction): spec denies".to_string()),
+            _ => {},
+        }
+        if let (Op::Get { s, .. }, Out::Val(Ok(v))) = (op, &out) {
+            if pre.val[*s as usize].map(value).as_deref() != Some(v.as_str()) { why.push("get returned a value different from the ghost value".to_string()); }
+        }
+        if let (Op::Ver { s, kind: 2, .. }, Out::Val(Ok(v))) = (op, &out) {
+            if writes[*s as usize] <= 5 && first_val[*s as usize].map(value).as_deref() != Some(v.as_str()) { why.push("get_version(1) returned a value different from the first value written".to_string()); }
+        }
+        if let (Op::List { by, pat }, Out::Names(Ok(l))) = (op, &out) {
+            let want = pre.listed(*by, *pat, &sys.nm);
+            if *l != want { why.push(format!("list returned {l:?}, spec {want:?}")); }
+        }
+        // only now the observers are read
+        let rv = sys.view();
+        let sv = post.view();
+        if rv != sv { why.push(format!("post-view differs: {}", rv.diff(&sv, "spec"))); }
+        let ok = why.is_empty();
+        sink(ob, ok, i, &|| format!("op#{i} {} -> {} (no observer call since the start of the sequence); spec decision {:?}; {}", op.to_json(), out.show(), allowed, why.join(" | ")));
+        res.passed = ok;
+    }
+    res
+}
+fn blind(rep: &mut Report, cfg: &Cfg, ops: &[Op], ob: &str) -> SeqRes {
+    let r = run_blind(cfg, ops, ob, &mut |oid, ok, at, detail| rep.check(oid, ok, &|| case_json(cfg, &ops[..=at], at), detail));
+    for k in 0..r.checked { rep.eval(k < r.nontrivial); }
+    r
+}
+
+/// every kind of op as the requester's first call: `other` = an entity the requester may try to revoke, `third` = grantee
+fn first_ops(by: u8, s: u8, third: u8, other: u8) -> Vec<Op> {
+    vec![Op::Rotate { by, s, v: 3 }, Op::Set { by, s, v: 2 }, Op::Delete { by, s },
+         Op::Ver { by, s, kind: 0 }, Op::Ver { by, s, kind: 1 }, Op::Ver { by, s, kind: 2 },
+         Op::Grant { by, to: third, s, lvl: 1, ttl: None }, Op::Grant { by, to: third, s, lvl: 3, ttl: None }, Op::Grant { by, to: third, s, lvl: 2, ttl: Some(3600) },
+         Op::Delegate { by, to: third, s, lvl: 1 }, Op::Revoke { by, from: other, s },
+         Op::Get { by, s }, Op::List { by, pat: 0 }, Op::List { by, pat: 1 + s }]
+}
+
+/// C14.decision.group_ttl: see the module doc
+fn family_group_ttl(rep: &mut Report) {
+    let base = [Op::Set { by: ROOT, s: 0, v: 1 }, Op::Grant { by: ROOT, to: BOB, s: 0, lvl: 2, ttl: None }];
+    // (chain, policy, extended): extended = also the variants in which the member holds a grant of its own
+    for (chain, policy, extended) in [(2u8, 0u8, true), (2, 1, false), (1, 0, false), (2, 2, false)] {
+        let cfg = Cfg { chain, policy, names: 1 };
+        for group in [TEAM, ORG] {
+            if group == ORG && chain < 2 { continue; }
+            // own: nothing / a permanent Read of alice's own / a live 3600 s TTL Read of alice's own (its TTL entry is NOT expired)
+            for own in 0..(if extended { 3 } else { 1 }) {
+                for lvl in 1..=3u8 { for ttl in [0u64, 3600] {
+                    let mut pre = base.to_vec();
+                    match own { 1 => pre.push(Op::Grant { by: ROOT, to: ALICE, s: 0, lvl: 1, ttl: None }), 2 => pre.push(Op::Grant { by: ROOT, to: ALICE, s: 0, lvl: 1, ttl: Some(3600) }), _ => {} }
+                    pre.push(Op::Grant { by: ROOT, to: group, s: 0, lvl, ttl: Some(ttl) });
+                    let mut requesters = vec![ALICE];
+                    if own == 0 { if group == ORG { requesters.push(TEAM); } requesters.push(group); }
+                    for by in requesters { for op in first_ops(by, 0, CAROL, BOB) {
+                        let mut ops = pre.clone();
+                        ops.push(op);
+                        blind(rep, &cfg, &ops, BLIND[0]);
+                    } }
+                } }
+            }
+        }
+    }
+}
+
+/// C14.revoke.all_edges: see the module doc
+fn family_revoke_all(rep: &mut Report) {
+    let cfg = Cfg { chain: 2, policy: 0, names: 1 };
+    let g = |by: u8, to: u8, lvl: u8, ttl: Option<u64>| Op::Grant { by, to, s: 0, lvl, ttl };
+    // (holder of the grants, requesters that draw on them)
+    for (x, requesters) in [(BOB, vec![BOB]), (TEAM, vec![ALICE, TEAM])] {
+        let combos: Vec<Vec<Op>> = vec![
+            vec![g(ROOT, x, 2, None)],
+            vec![g(ROOT, x, 1, None), g(ROOT, x, 2, None)],
+            vec![g(ROOT, x, 2, None), g(ROOT, x, 1, None)],
+            vec![g(ROOT, x, 3, None), g(ROOT, x, 3, None)],
+            vec![g(ROOT, x, 1, None), g(ROOT, x, 2, None), g(ROOT, x, 3, None)],
+            vec![g(ROOT, x, 1, None), g(ROOT, x, 2, Some(3600))],
+            vec![g(ROOT, x, 3, Some(3600)), g(ROOT, x, 1, None)],
+            vec![g(ROOT, x, 2, None), Op::Delegate { by: ROOT, to: x, s: 0, lvl: 2 }],
+            vec![Op::Delegate { by: ROOT, to: x, s: 0, lvl: 3 }, g(ROOT, x, 1, None)],
+            vec![g(ROOT, x, 1, None), g(CAROL, x, 2, None)],
+            vec![g(CAROL, x, 3, None), Op::Delegate { by: CAROL, to: x, s: 0, lvl: 3 }, g(ROOT, x, 2, None)],
+        ];
+        for combo in &combos { for revoker in [ROOT, CAROL] {
+            // frame: carol is another Admin of S0, x holds Write on the other secret S1
+            let mut pre = vec![Op::Set { by: ROOT, s: 0, v: 1 }, Op::Set { by: ROOT, s: 1, v: 2 },
+                               Op::Grant { by: ROOT, to: CAROL, s: 0, lvl: 3, ttl: None }, Op::Grant { by: ROOT, to: x, s: 1, lvl: 2, ttl: None }];
+            pre.extend(combo.iter().cloned());
+            pre.push(Op::Revoke { by: revoker, from: x, s: 0 });
+            blind(rep, &cfg, &pre, BLIND[1]);
+            for &by in &requesters {
+                let third = if by == BOB { ALICE } else { BOB };
+                let mut after = first_ops(by, 0, third, CAROL);
+                after.extend([Op::Get { by, s: 1 }, Op::Rotate { by, s: 1, v: 3 }, Op::Get { by: CAROL, s: 0 }, Op::Rotate { by: CAROL, s: 0, v: 3 }]);
+                for op in after { let mut ops = pre.clone(); ops.push(op); blind(rep, &cfg, &ops, BLIND[1]); }
+            }
+        } }
+    }
+}
+
 // ---------------------------------------------------------------- enumeration
 fn case_json(cfg: &Cfg, ops: &[Op], at: usize) -> Value {
     json!({"cfg": cfg.to_json(), "ops": ops.iter().map(Op::to_json).collect::<Vec<_>>(), "at": at})
@@ -618,7 +815,9 @@ fn alpha_pol() -> Vec<Op> {
     a
 }
 
-const OBLIGATIONS: [(&str, &str); 9] = [
+const OBLIGATIONS: [(&str, &str); 11] = [
+    ("C14.decision.group_ttl", "Vault::{rotate,set,delete,current_version,list_versions,get_version,grant_with_permission,grant_with_ttl,delegate,revoke,get,list} as the first call after grant_with_ttl to a group"),
+    ("C14.revoke.all_edges", "Vault::revoke after several grant-type ops (grant, grant_with_permission, grant_with_ttl, delegate) on one (entity, secret) + the next op"),
     ("C14.decision", "Vault::{get,list,set,rotate,delete,grant,grant_with_permission,grant_with_ttl,revoke,get_permission}"),
     ("C14.decision.ttl_overlap", "Vault::{grant_with_ttl,cleanup via get/list} with a second grant on the same (entity, secret)"),
     ("C14.revoke.immediate", "Vault::{revoke,delete,grant_with_ttl} + next access"),
@@ -647,14 +846,21 @@ pub fn run(tier: Tier, seed: u64) -> Report {
          F2: chain in {{0,1,2}} x policy in {{default, none, tight(1,1,2)}}: {}. \
          F3: name class {{1 byte,16 bytes,UTF-8}} x value class {{1 byte,16 bytes,UTF-8}}: a fixed 17-op script, every op checked; size limit: values of 65531 and 65532 bytes. \
          F4 (TTL): grant_with_ttl(ttl in {{0 s, 3600 s}}) by root to alice/team/org at R/W/A, followed by every op of the F1 alphabet; \
-         F4b: permanent W grant + grant_with_ttl(R, 0 s) to the same entity (alice / team), followed by every op of the F1 alphabet.{}",
+         F4b: permanent W grant + grant_with_ttl(R, 0 s) to the same entity (alice / team), followed by every op of the F1 alphabet. \
+         F5 (blind: no observer call between the ops, the view is read only after the checked op): grant_with_ttl(R/W/A, ttl in {{0 s, 3600 s}}) by root to a GROUP (team / org; \
+         chain alice->team->org, policies default / none / tight and chain 1) while bob holds a permanent W and alice nothing / a permanent R / a live-TTL R of her own, then as the FIRST \
+         call each of 14 ops (rotate, set, delete, current_version, list_versions, get_version, grant R / A / W+ttl to carol, delegate to carol, revoke bob, get, list *, list S0) by \
+         alice (member), by team (member of org) and by the group itself. \
+         F6 (blind): 11 combinations of 1..3 grant-type ops on one (entity, S0) pair, entity in {{bob, team}} (R then W, W then R, A twice, R+W+A, R + W/3600 s, A/3600 s + R, W + delegate W, \
+         delegate A + R, R by root + W by carol, A by carol + delegate by carol + W by root), then ONE revoke by root / by carol (another Admin), then the revoke itself and each of the \
+         14 ops on S0 by bob / alice (member of team) / team, plus get/rotate on S1 by the same requester and get/rotate on S0 by carol (frame).{}",
         core.len(),
         if thorough { format!("; F1w: the same over the wide {}-op alphabet (adds TTL grants, MEMBER insertions, more S1 ops) with length <= 2 / <= 3", wide.len()) } else { String::new() },
         if thorough { format!("all sequences of length <= 2 over the F1 alphabet, plus length <= 2 / <= 3 (same rule) over a {}-op policy alphabet", pola.len()) }
         else { format!("all sequences of length <= 2 over a {}-op policy alphabet (root grants to alice/team/org at R/W/A, every op kind by alice, get by bob, revoke team)", pola.len()) },
         if thorough { " Beyond the exhaustive core: 6000 seeded random sequences of length 6 over the wide alphabet, random chain/policy/name class (not exhaustive)." } else { "" });
     let mut rep = Report::new("c14_vault", &domain, true,
-        &["tensor_vault::Vault::{new,set,get,rotate,delete,list,grant,grant_with_permission,grant_with_ttl,revoke,get_permission,current_version,get_version,audit_recent,audit_log}",
+        &["tensor_vault::Vault::{new,set,get,rotate,delete,list,grant,grant_with_permission,grant_with_ttl,revoke,delegate,get_permission,current_version,list_versions,get_version,audit_recent,audit_log}",
           "tensor_vault::AccessController::get_permission_level_verified", "tensor_vault::AttenuationPolicy::attenuate", "tensor_vault::GrantTTLTracker",
           "tensor_store::TensorStore::{snapshot_bytes,scan}"]);
     for (o, f) in OBLIGATIONS { rep.declare(o, f); }
@@ -700,6 +906,10 @@ pub fn run(tier: Tier, seed: u64) -> Report {
         for op in &core { let mut o = p3.to_vec(); o.push(op.clone()); node(&mut rep, &c1, &o, 3); }
     }
     rep.sample(case_json(&c1, &[pre[0].clone(), Op::Grant { by: ROOT, to: ALICE, s: 0, lvl: 2, ttl: Some(0) }, Op::Rotate { by: ALICE, s: 0, v: 3 }], 2));
+    // F5 / F6 (blind sequences)
+    family_group_ttl(&mut rep);
+    family_revoke_all(&mut rep);
+    rep.sample(case_json(&c1, &[pre[0].clone(), Op::Grant { by: ROOT, to: TEAM, s: 0, lvl: 3, ttl: Some(0) }, Op::Rotate { by: ALICE, s: 0, v: 3 }], 2));
 
     if thorough {
         let mut rng = Rng(seed ^ 0xC14);
@@ -720,6 +930,12 @@ pub fn replay(ob: &str, case: &Value) -> Result<String, String> {
     let at = case["at"].as_u64().map_or(ops.len() - 1, |x| x as usize).min(ops.len() - 1);
     let mut fails = vec![];
     let mut seen = 0;
+    if BLIND.contains(&ob) {
+        let r = run_blind(&cfg, &ops[..=at], ob, &mut |_, ok, _, detail| { seen += 1; if !ok { fails.push(detail()); } });
+        return if !fails.is_empty() { Err(fails.join(" || ")) }
+        else if seen == 0 || !r.passed { Ok(format!("obligation {ob} does not apply: a prefix op of this sequence diverged from the specification (it is its own case)")) }
+        else { Ok(format!("op #{at} {} satisfies {ob} (blind sequence, view compared after the op)", ops[at].to_json())) };
+    }
     run_seq(&cfg, &ops[..=at], at, &mut |oid, ok, _, detail| {
         if oid == ob { seen += 1; if !ok { fails.push(detail()); } }
     });
